@@ -211,6 +211,12 @@ func cmdCheck(args []string) int {
 				vcOf[o] = vc
 			}
 		}
+		emptyCase := map[string]bool{} // split cases excluded by the precondition
+		for _, o := range f.res.Obls {
+			if o.Kind == "pre-sat" && o.Result == "unsat" && o.Case != "" && f.res.Cases > 1 {
+				emptyCase[o.Case] = true
+			}
+		}
 		reportedKF := map[string]bool{}
 		reportedV := map[string]bool{}
 		replayTries := map[string]int{}
@@ -221,6 +227,9 @@ func cmdCheck(args []string) int {
 			if o.Kind == "pre-sat" || o.Kind == "vacuity" {
 				nVac++
 				if o.Result == "sat" {
+					nVacOK++
+				} else if o.Result == "unsat" && emptyCase[o.Case] && (hasSatCase(f.res.Obls, "pre-sat") || len(emptyCase) < f.res.Cases-1) {
+					// an empty split case (the precondition excludes it): not vacuity of the contract
 					nVacOK++
 				} else if o.Result == "unsat" {
 					// vacuous contract: a tool/contract error, not a property violation
@@ -400,6 +409,15 @@ var oblOrdinalRe = regexp.MustCompile(`(\.x\d+|\.e\d+|#\d+)`)
 
 // normObl: obligation name without path/exit/call-site ordinals, which shift when code is edited.
 func normObl(s string) string { return oblOrdinalRe.ReplaceAllString(s, "") }
+
+func hasSatCase(obls []*Obligation, kind string) bool {
+	for _, o := range obls {
+		if o.Kind == kind && o.Result == "sat" {
+			return true
+		}
+	}
+	return false
+}
 
 func round3(f float64) float64 { return float64(int64(f*1000+0.5)) / 1000 }
 
